@@ -140,18 +140,22 @@ def nontrivial(case):
 # ------------------------------------------------------------------ case construction
 def build_url(entry, pos, s):
     if entry == "conn":
-        return {"raw": s, "path": "/" + s, "query": "/p?" + s}[pos]
+        return {"raw": s, "path": "/" + s, "query": "/p?" + s, "path+escq": "/" + s + ESCQ, "escp+query": ESCP + "?" + s}[pos]
     if entry == "pool_rel":
-        return {"path": "/" + s, "query": "/p?" + s, "frag": "/p#" + s}[pos]
+        return {"path": "/" + s, "query": "/p?" + s, "frag": "/p#" + s, "path+escq": "/" + s + ESCQ, "escp+query": ESCP + "?" + s}[pos]
     return {"path": BASE + "/" + s, "query": BASE + "/p?" + s, "frag": BASE + "/p#" + s,
+            "path+escq": BASE + "/" + s + ESCQ, "escp+query": BASE + ESCP + "?" + s,
             "userinfo": "http://" + s + "@" + HOST + "/p", "hostsfx": BASE + s + "/p",
             "prefix": s + BASE + "/p"}[pos]
 
 
-URL_POS = {"conn": ("raw", "path", "query"),
-           "pool_rel": ("path", "query", "frag"),
+# the hostile string in one component while the OTHER component carries legal percent-escapes (each component is
+# encoded - or left alone - on its own merits)
+ESCQ, ESCP = "?k=a%2Fb%3d", "/a%2Fb%3d"
+URL_POS = {"conn": ("raw", "path", "query", "path+escq", "escp+query"),
+           "pool_rel": ("path", "query", "frag", "path+escq", "escp+query"),
            "pool_abs": ("path", "query", "frag", "userinfo", "hostsfx"),
-           "pm": ("path", "query", "frag", "userinfo", "hostsfx", "prefix")}
+           "pm": ("path", "query", "frag", "userinfo", "hostsfx", "prefix", "path+escq", "escp+query")}
 
 
 def benign_url(entry):
